@@ -5,6 +5,7 @@
    argument to check_input with preprocessor=self.preprocessor_) is generated from the source. *)
 From Coq Require Import List Arith Bool String.
 From ML Require Import Preproc Validate C05Proof.
+From ML Require Import PinsC05.
 From MLgen Require Import Src_query.
 Import ListNotations.
 
@@ -48,3 +49,7 @@ Print Assumptions C05_holds.
 Example C05_nonvacuous :
   preprocess_tuples 0 0 (map (fun i => 10 * i)) 3 [[1; 2; 3]; [3; 1; 1]] = [[10; 20; 30]; [30; 10; 10]].
 Proof. reflexivity. Qed.
+
+(* text-level tie: the functions this property's hand-written model and harness were written from are unchanged
+   (digests regenerated from /repo on every run; Proofs/PinsC05.v) *)
+Definition C05_source_pins := pins_C05_ok.
